@@ -1,7 +1,7 @@
 (* ExecOracleQ.v — part 6: the oracles p_c05 and p_c04 (ChkX.v) return None on the model's own step records. *)
 From Coq Require Import Sorted.
 From Verif Require Import Base OMap Text Proto Bank Exec ExecFacts ExecInv ExecFacts2 ExecIso ChkExec ChkX Registry ExecReg
-  ExecOracle ExecOracleM ExecOracleE ExecOracleP ExecOracleF.
+  ExecOracle ExecOracleM ExecOracleE ExecOracleP ExecOracleF ExecOracleG.
 Local Open Scope N_scope.
 
 (* ---------- a successful contract call, taken apart ---------- *)
@@ -196,7 +196,71 @@ Let s' := top_state (run_top e op s).
 Hypothesis Hpre : step_pre s op.
 Let Hw : wf_op op := proj1 (proj2 Hpre).
 
+Lemma q_mse : model_step ce st s =
+  {| st_blk := st_blk st; st_op := op; st_trace := tr; st_outcome := o; st_state := s'; st_other := 0; st_raw_same := chain_eqb s s' |}.
+Proof. exact (model_step_eq ce st s). Qed.
+Lemma q_fi : forall pi, In pi (flat_op op) -> find_info (pi_node pi) (flat_op op) = Some pi.
+Proof. intros pi H. exact (find_info_unique _ _ (Hni st s Hpre) H). Qed.
+Lemma q_hnc : NoDup (call_nodes tr).
+Proof. exact (Hnc ce st s Hpre). Qed.
+Lemma q_entry : forall en, In en tr -> entry_ok None (top_sender op) (flat_op op) (calls tr) en.
+Proof. exact (entry_of ce st s). Qed.
+
 (* ---------- C05 ---------- *)
+Lemma c05_returned :
+  forallb (fun en =>
+     match en with
+     | RCall n EReply c _ _ _ _ (Some (_, _, RRErr)) =>
+         match find_info n (flat_op op) with
+         | Some pi =>
+             match pi_disp pi with
+             | Some d =>
+                 match find_info d (flat_op op) with
+                 | Some pd =>
+                     match first_sub_err (pi_prog pd), probe_of (pi_prog pd) with
+                     | Some q, Some (a, den) =>
+                         negb ((prog_node q =? n) && teqb a c &&
+                               match probe_of q with Some (a', den') => teqb a' a && teqb den' den | None => false end)
+                         || match first_amount d tr, first_amount n tr with
+                            | Some b1, Some b2 => b1 =? b2
+                            | _, _ => true end
+                     | _, _ => true end
+                 | None => true end
+             | None => true end
+         | None => true end
+     | _ => true
+     end) tr = true.
+Proof.
+  apply forallb_forall. intros en Hen. pose proof (q_entry en Hen) as A.
+  destruct en as [n ep c sender funds b tag rep| | |]; try reflexivity. destruct ep; try reflexivity.
+  destruct rep as [[[id pl] res]|]; try reflexivity. destruct res; try reflexivity.
+  destruct (find_info n (flat_op op)) as [pi|] eqn:Fi; [|reflexivity]. destruct (pi_disp pi) as [d|] eqn:Ed; [|reflexivity].
+  destruct (find_info d (flat_op op)) as [pd|] eqn:Fd; [|reflexivity].
+  destruct (first_sub_err (pi_prog pd)) as [q|] eqn:Eq; [|reflexivity].
+  destruct (probe_of (pi_prog pd)) as [[a den]|] eqn:Ep; [|reflexivity].
+  destruct ((prog_node q =? n) && teqb a c &&
+            match probe_of q with Some (a', den') => teqb a' a && teqb den' den | None => false end) eqn:Ec; [|reflexivity].
+  cbn [negb orb]. apply andb_true_iff in Ec as [Ec Ec3]. apply andb_true_iff in Ec as [Ec1 Ec2].
+  apply N.eqb_eq in Ec1. apply teqb_eq in Ec2. subst a.
+  destruct (probe_of q) as [[a' den']|] eqn:Epq; [|discriminate]. apply andb_true_iff in Ec3 as [E3 E4].
+  apply teqb_eq in E3. apply teqb_eq in E4. subst a' den'.
+  destruct (first_amount d tr) as [b1|] eqn:E1; [|reflexivity]. destruct (first_amount n tr) as [b2|] eqn:E2; [|reflexivity].
+  apply N.eqb_eq. destruct (first_amount_inv _ _ _ E1) as (rest1 & A1). destruct (first_amount_inv _ _ _ E2) as (rest2 & A2).
+  (* the dispatcher ran at c *)
+  cbn [entry_ok] in A. destruct A as (pi0 & Hi0 & Hn0 & _ & _ & _ & _ & _ & (d0 & Hd0 & Hdd)).
+  pose proof (q_fi pi0 Hi0) as Fi0. rewrite Hn0, Fi in Fi0. injection Fi0 as <-. rewrite Ed in Hd0. injection Hd0 as <-.
+  destruct Hdd as [[Hx _]|Hdd]; [discriminate|]. destruct (calls_find tr d c q_hnc Hdd) as (pen & Fpen & Ecal).
+  destruct (find_info_in _ _ _ Fd) as [Hipd Hnpd].
+  pose proof (top_G e op s Hw (Hn st s Hpre) (pi_prog pd) (flat_op_prog_in op pd Hipd)) as [_ HRp]. fold tr in HRp.
+  pose proof (flat_op_node_of op pd Hipd) as Enode. rewrite Hnpd in Enode.
+  assert (Hfn : find_call (prog_node q) tr = Some (RCall n EReply c sender funds b tag (Some (id, pl, RRErr)))).
+  { rewrite Ec1. apply find_call_unique; [exact q_hnc|exact Hen|reflexivity]. }
+  unfold Rp in HRp. rewrite Enode in HRp.
+  destruct (HRp q den b1 rest1 pen Eq Fpen) with (en_n := RCall n EReply c sender funds b tag (Some (id, pl, RRErr))) as (r2 & A3);
+    try (rewrite Ecal; assumption); try assumption; try exact I.
+  rewrite Ec1, A2 in A3. injection A3 as ->. reflexivity.
+Qed.
+
 Lemma p_c05_model : bank_wf (bank s) -> p_c05 (model_step ce st s) = None.
 Proof.
   intros Hb. rewrite model_step_eq. unfold p_c05. apply first_fail_all_true.
@@ -214,17 +278,8 @@ Proof.
     destruct (teqb a c) eqn:Ea; [|reflexivity]. cbn [negb orb]. apply teqb_eq in Ea. subst a.
     destruct (Hp d eq_refl) as (b0 & rest & Eac & Hle). unfold e, op in Eac. rewrite Eac, N.eqb_refl. cbn [negb orb].
     apply N.leb_le. exact Hle.
+  - exact c05_returned.
 Qed.
-
-Lemma q_mse : model_step ce st s =
-  {| st_blk := st_blk st; st_op := op; st_trace := tr; st_outcome := o; st_state := s'; st_other := 0; st_raw_same := chain_eqb s s' |}.
-Proof. exact (model_step_eq ce st s). Qed.
-Lemma q_fi : forall pi, In pi (flat_op op) -> find_info (pi_node pi) (flat_op op) = Some pi.
-Proof. intros pi H. exact (find_info_unique _ _ (Hni st s Hpre) H). Qed.
-Lemma q_hnc : NoDup (call_nodes tr).
-Proof. exact (Hnc ce st s Hpre). Qed.
-Lemma q_entry : forall en, In en tr -> entry_ok None (top_sender op) (flat_op op) (calls tr) en.
-Proof. exact (entry_of ce st s). Qed.
 
 (* ---------- C04 ---------- *)
 Lemma p_c04_model : p_c04 (model_step ce st s) = None.
